@@ -2756,3 +2756,67 @@ func RPosixASCII(c *core.Ctx) {
 		c.Anchor("the arms of addNamedASCII")
 	}
 }
+
+// R-UNIONNEG: De Morgan — a union of negated categories is not the negation of their union.
+func RUnionNeg(c *core.Ctx) {
+	c.Rule("R-UNIONNEG", "the categories of a class form a UNION (charInCategories): wherever several categories are added together to stand for one concept (IgnoreCase widening \\p{Lu} to Lu, Ll and Lt), they are not each given the caller's negate flag — not-Lu OR not-Ll OR not-Lt is every character; a negated group needs one category that names the group (LC) or a negated set", 2)
+	p := c.P
+	syn := p.Pkg("syntax")
+	if syn == nil {
+		c.Anchor("package syntax")
+		return
+	}
+	info := syn.TypesInfo
+	n := 0
+	for _, fd := range p.FuncDecls(syn) {
+		if fd.Body == nil || p.IsTestFile(fd.Pos()) {
+			continue
+		}
+		name := core.DeclName(syn, fd)
+		ord := 0
+		// all addCategories calls of the function, grouped by the block they stand in
+		ast.Inspect(fd.Body, func(x ast.Node) bool {
+			call, ok := x.(*ast.CallExpr)
+			if !ok {
+				return true
+			}
+			fn := core.Callee(info, call)
+			if fn == nil || fn.Name() != "addCategories" {
+				return true
+			}
+			ord++
+			n++
+			c.Visit(name)
+			// literal Category arguments and their Negate expressions
+			var negs []string
+			for _, a := range call.Args {
+				cl, ok := ast.Unparen(a).(*ast.CompositeLit)
+				if !ok {
+					continue
+				}
+				neg := "false"
+				for _, el := range cl.Elts {
+					if kv, ok := el.(*ast.KeyValueExpr); ok {
+						if id, ok := kv.Key.(*ast.Ident); ok && id.Name == "Negate" {
+							neg = types.ExprString(kv.Value)
+						}
+					}
+				}
+				negs = append(negs, neg)
+			}
+			bad := false
+			if len(negs) >= 2 {
+				for _, ng := range negs {
+					if ng != "false" {
+						bad = true
+					}
+				}
+			}
+			c.Check(!bad, fmt.Sprintf("%s / addCategories call #%d does not negate the members of a group one by one", name, ord), call.Pos(), "%d categories are added as one group with Negate = %v: the union of the negations is (almost) every character", len(negs), negs)
+			return true
+		})
+	}
+	if n == 0 {
+		c.Anchor("calls of addCategories")
+	}
+}
